@@ -248,12 +248,12 @@ Definition cached_side (f : fmt) (t : tx) : string :=
 Definition run_cached (t : tx) : string :=
   let before := match inputs t with [] => "000" | _ => "111" end in
   let impl := "OK:" +++ before +++ ";1;111;" +++ cached_side Json t +++ ";" +++ cached_side Cbor t +++ ";" +++ cached_side Cbor t in
-  out3 impl "OK:*;1;111;000111;000111;000111"
+  out3 impl ("OK:" +++ before +++ ";1;111;000111;000111;000111")
        (if exceeds_limit Json (ser_tx t) || exceeds_limit Cbor (ser_tx t) then "nesting-exceeds-decoder-limit"
         else if tx_has_cb t then "coinbase-script-bit" else "-").
 
 Definition show_de_tx (r : outcome tx) : string :=
-  match r with Ok t => "OK:" +++ show_tx t | Err => "ERR" | Panic => "PANIC" end.
+  match r with Ok t => "OK:v;" +++ show_tx t | Err => "ERR" | Panic => "PANIC" end.
 
 Definition with_tx (w e : string) (k : tx -> string) : string :=
   match get_tx w e with
@@ -302,50 +302,50 @@ Definition run (op : string) (args : list string) : string :=
         match N_of_dec ix with
         | Some n => if (n <? N.of_nat (length (outputs t)))%N then
                       match nth_error (outputs t) (N.to_nat n) with
-                      | Some o => out3 ("OK:" +++ text_bytes (json_pretty 0 (ser_txout o)) +++ ";" +++ text_bytes (json_value_of (ser_txout o))) "OK:*;*" "-"
-                      | None => "BADARG"
+                      | Some o => out3 ("OK:v;" +++ text_bytes (json_pretty 0 (ser_txout o)) +++ ";" +++ text_bytes (json_value_of (ser_txout o))) "OK:v;*;*" "-"
+                      | None => out3 "NONE" "-" "-"
                       end
-                    else "BADARG"
+                    else out3 "NONE" "-" "-"
         | None => "BADARG"
         end)
   | "tx.to_json", [w; e] =>
-      with_tx w e (fun t => out3 ("OK:" +++ text_bytes (json_of (ser_tx t)) +++ ";" +++ text_bytes (json_value_of (ser_tx t))) "OK:*;*" "-")
-  | "tx.to_cbor", [w; e] => with_tx w e (fun t => out3 ("OK:" +++ show_bytes (cbor_of (ser_tx t))) "OK:*" "-")
+      with_tx w e (fun t => out3 ("OK:v;" +++ text_bytes (json_of (ser_tx t)) +++ ";" +++ text_bytes (json_value_of (ser_tx t))) "OK:v;*;*" "-")
+  | "tx.to_cbor", [w; e] => with_tx w e (fun t => out3 ("OK:v;" +++ show_bytes (cbor_of (ser_tx t))) "OK:v;*" "-")
   | "txin.json", [w; e; ix] =>
-      with_txin w e ix (fun i => out3 ("OK:" +++ text_bytes (json_pretty 0 (ser_txin i)) +++ ";" +++ text_bytes (json_value_of (ser_txin i))) "OK:*;*" "-")
-  | "txin.to_cbor", [w; e; ix] => with_txin w e ix (fun i => out3 ("OK:" +++ show_bytes (cbor_of (ser_txin i))) "OK:*" "-")
-  | "tx.de_json", [a] => match tree_arg a with Some c => out3 (show_de_tx (de_tx Json c)) "ERR~OK:*" "-" | None => "BADARG" end
-  | "tx.de_cbor", [a] => match tree_arg a with Some c => out3 (show_de_tx (de_tx Cbor c)) "ERR~OK:*" "-" | None => "BADARG" end
+      with_txin w e ix (fun i => out3 ("OK:v;" +++ text_bytes (json_pretty 0 (ser_txin i)) +++ ";" +++ text_bytes (json_value_of (ser_txin i))) "OK:v;*;*" "-")
+  | "txin.to_cbor", [w; e; ix] => with_txin w e ix (fun i => out3 ("OK:v;" +++ show_bytes (cbor_of (ser_txin i))) "OK:v;*" "-")
+  | "tx.de_json", [a] => match tree_arg a with Some c => out3 (show_de_tx (de_tx Json c)) "ERR~OK:v;*" "-" | None => "BADARG" end
+  | "tx.de_cbor", [a] => match tree_arg a with Some c => out3 (show_de_tx (de_tx Cbor c)) "ERR~OK:v;*" "-" | None => "BADARG" end
   | "txin.de_cbor", [a] =>
       match tree_arg a with
-      | Some c => out3 (match de_txin_top Cbor c with Ok i => "OK:" +++ show_txin i | Err => "ERR" | Panic => "PANIC" end) "ERR~OK:*" "-"
+      | Some c => out3 (match de_txin_top Cbor c with Ok i => "OK:v;" +++ show_txin i | Err => "ERR" | Panic => "PANIC" end) "ERR~OK:v;*" "-"
       | None => "BADARG"
       end
   | "tx.json_prefix", [w; e; k] =>
       with_tx w e (fun t =>
         match N_of_dec k with
-        | Some n => if (n <? N.of_nat (slength (json_of (ser_tx t))))%N then out3 "ERR" "ERR~OK:*" "-"
-                    else out3 (show_de_tx (de_tx Json (ser_tx t))) "ERR~OK:*" "-"
+        | Some n => if (n <? N.of_nat (slength (json_of (ser_tx t))))%N then out3 "ERR" "ERR~OK:v;*" "-"
+                    else out3 (show_de_tx (de_tx Json (ser_tx t))) "ERR~OK:v;*" "-"
         | None => "BADARG"
         end)
   | "tx.cbor_prefix", [w; e; k] =>
       with_tx w e (fun t =>
         match N_of_dec k with
-        | Some n => if (n <? N.of_nat (length (cbor_of (ser_tx t))))%N then out3 "ERR" "ERR~OK:*" "-"
-                    else out3 (show_de_tx (de_tx Cbor (ser_tx t))) "ERR~OK:*" "-"
+        | Some n => if (n <? N.of_nat (length (cbor_of (ser_tx t))))%N then out3 "ERR" "ERR~OK:v;*" "-"
+                    else out3 (show_de_tx (de_tx Cbor (ser_tx t))) "ERR~OK:v;*" "-"
         | None => "BADARG"
         end)
   | "tx.json_trailing", [w; e; x] =>
       with_tx w e (fun t =>
         match expand x with
-        | Some bs => if all_ws (string_of_bytes bs) then out3 (show_de_tx (de_tx Json (ser_tx t))) "ERR~OK:*" "-"
-                     else out3 "ERR" "ERR~OK:*" "-"
+        | Some bs => if all_ws (string_of_bytes bs) then out3 (show_de_tx (de_tx Json (ser_tx t))) "ERR~OK:v;*" "-"
+                     else out3 "ERR" "ERR~OK:v;*" "-"
         | None => "BADARG"
         end)
   | "tx.cbor_trailing", [w; e; x] =>
       with_tx w e (fun t =>
         match expand x with
-        | Some _ => out3 (show_de_tx (de_tx Cbor (ser_tx t))) "ERR~OK:*" "-"
+        | Some _ => out3 (show_de_tx (de_tx Cbor (ser_tx t))) "ERR~OK:v;*" "-"
         | None => "BADARG"
         end)
   | "tx.from_json", [a] => match expand a with Some _ => out3 "OK:total" "OK:total" "-" | None => "BADARG" end
